@@ -432,7 +432,8 @@ HARNESSES = {
         "fn": net_faithful,
         "quick": [{"fixed": {"router_on": True, "rule_present": True, "part": "acl", "permit": p, "slot": sl}, "timeout": 280} for p in (True, False) for sl in (0, 3)]
         + [{"fixed": {"router_on": ro, "rule_present": rp, "part": pt}, "timeout": 200} for (ro, rp, pt) in ((True, False, "acl"), (False, True, "acl"), (True, True, "link"), (True, False, "nmne"))],
-        "thorough": [{"fixed": {"router_on": ro, "rule_present": rp, "part": pt}, "timeout": 1200} for ro in (True, False) for rp in (True, False) for pt in ("acl", "link", "nmne")],
+        "thorough": [{"fixed": {"router_on": ro, "rule_present": rp, "part": pt}, "timeout": 1200} for ro in (True, False) for rp in (True, False) for pt in ("acl", "link", "nmne") if not (ro and rp and pt == "acl")]
+        + [{"fixed": {"router_on": True, "rule_present": True, "part": "acl", "slot": sl, "permit": p}, "timeout": 1200} for sl in range(4) for p in (True, False)],
         "cover": ["router_on", "router_off"],
         "bounds": "one ACL rule at any of the 4 observed slots with listed/None address, port, protocol and both actions; 9 link loads; NMNE counts unbounded over two steps; router port enabled/disabled; router ON/OFF",
     },
